@@ -274,6 +274,27 @@ fn check_one(sh: &Sh, leaves: &[Leaf], nbits: u32, cov: &mut Cov, viol: &mut Vec
     }
 }
 
+/// re-execute one `{"kind":"expr","shape":..,"universe_bits":..,"leaves":[..]}` artefact
+pub fn replay(case: &serde_json::Value) -> Vec<Violation> {
+    let text = case["shape"].as_str().unwrap_or("");
+    let Some(sh) = shapes().into_iter().find(|s| s.text() == text) else {
+        vcore::machinery_error(&format!("C21 replay: unknown expression shape {text:?}"));
+    };
+    let nbits = case["universe_bits"].as_u64().unwrap_or(3) as u32;
+    let leaves: Vec<Leaf> = case["leaves"].as_array().map(|a| a.iter().map(|l| Leaf {
+        kind: match l["kind"].as_str().unwrap_or("") { "Exact" => Kind::Exact, "AtMost" => Kind::AtMost, _ => Kind::AtLeast },
+        truth: l["truth"].as_u64().unwrap_or(0) as u32,
+        reported: l["reported"].as_u64().unwrap_or(0) as u32,
+    }).collect()).unwrap_or_default();
+    if leaves.len() < sh.leaves() {
+        vcore::machinery_error("C21 replay: artefact has fewer leaves than the shape needs");
+    }
+    let mut cov = Cov::new();
+    let mut viol = vec![];
+    check_one(&sh, &leaves, nbits, &mut cov, &mut viol);
+    viol
+}
+
 pub fn run(ctx: &Ctx) -> (Cov, Vec<Violation>) {
     let sh = shapes();
     // work items: (shape, first-leaf option) so that the space is split evenly
